@@ -545,6 +545,55 @@ def reply_to_departed_peer_case(ctx, seed):
                 pass
 
 
+def burst_then_disconnect_case(ctx, count):
+    """A client sends `count` short messages and disconnects before the server polls."""
+    case = {'kind': 'burst', 'count': count}
+    sleeps = Sleeps(limit=300, real=0.001)
+    orig = mido.ports.sleep
+    mido.ports.sleep = sleeps
+    server = client = None
+    try:
+        server = PortServer('127.0.0.1', 0)
+        client = connect('127.0.0.1', server._socket.getsockname()[1])
+        for _ in range(200):
+            server.poll()
+            if server.ports:
+                break
+            time.sleep(0.001)
+        payload = bytearray()
+        for i in range(count):
+            payload += bytes([0x90 | (i % 16), i % 128, (i // 128) % 128])
+        client._socket.sendall(bytes(payload))
+        client.close()
+        time.sleep(0.05)
+        got = []
+        t_end = time.time() + 30
+        idle = 0
+        while time.time() < t_end and len(got) < count and idle < 50:
+            m = server.poll()
+            if m is None:
+                idle += 1
+                time.sleep(0.002)
+            else:
+                idle = 0
+                got.append(m)
+        want = [[0x90 | (i % 16), i % 128, (i // 128) % 128] for i in range(count)]
+        ctx.check('server hands out every client message exactly once', [m.bytes() for m in got] == want, 'burst-lost', case,
+                  {'delivered': len(got), 'sent': count})
+    except HarnessAbort as exc:
+        ctx.check('server calls do not block', False, 'burst-blocked', case, str(exc))
+    except Exception as exc:
+        ctx.fail('server hands out every client message exactly once', f'burst:{type(exc).__name__}', case, repr(exc))
+    finally:
+        mido.ports.sleep = orig
+        for p in (client, server):
+            try:
+                if p is not None:
+                    p.close()
+            except Exception:
+                pass
+
+
 def explicit_accept_case(ctx, seed):
     """A connection taken with server.accept() is read through the returned port - while the server
     itself is polled for its other clients."""
@@ -745,6 +794,11 @@ def run(ctx):
         reply_to_departed_peer_case(ctx, f'{ctx.seed}:{ctx.shard}:d{j}')
         ctx.nontrivial(('departed', ctx.seed, ctx.shard, j))
         n += 1
+    for ci, count in enumerate((1023, 1025, 4095, 4097, 6000)):
+        if ci % ctx.nshards == (ctx.shard + 5) % ctx.nshards:
+            burst_then_disconnect_case(ctx, count)
+            ctx.nontrivial(('burst', count))
+            n += 1
     for j in range(1 if ctx.tier == 'quick' else 30):
         explicit_accept_case(ctx, f'{ctx.seed}:{ctx.shard}:e{j}')
         dying_client_case(ctx, f'{ctx.seed}:{ctx.shard}:y{j}', ('as-is', 'reversed')[(j + ctx.shard) % 2])
@@ -768,6 +822,8 @@ def replay(ctx, case):
         thread_peer_case(ctx, case['seed'])
     elif k == 'killed-peer':
         killed_peer_case(ctx, case['seed'])
+    elif k == 'burst':
+        burst_then_disconnect_case(ctx, case['count'])
     elif k == 'close-while-receiving':
         close_while_receiving_case(ctx, case['how'])
     elif k == 'explicit-accept':
